@@ -7,7 +7,7 @@ UNITS = [
     Unit(name="C16.stop", src="units/C16/lifecycle.c", defines=["VP_H_STOP"], functions=["bidib_stop"], props=["C16"], no_dfcc=True,
          remove_bodies=[f for f in _u if f not in _keep], extra_flags=["--unwind", "10"], covers=2, min_obligations=8,
          stubbed_contracts=["pthread_create / pthread_join (ghost thread ledger)", "<12 callees of bidib_stop: event-recording contracts>"], note="loop-free: complete over every consistent entry state"),
-    Unit(name="C16.sessions", src="units/C16/lifecycle.c", defines=["VP_H_SESSIONS"], functions=["bidib_start_pointer", "bidib_init_threads", "bidib_stop"], props=["C16"], no_dfcc=True,
+    Unit(name="C16.sessions", src="units/C16/lifecycle.c", defines=["VP_H_SESSIONS"], functions=["bidib_start_pointer", "bidib_init_threads", "bidib_stop"], props=["C16", "C13"], no_dfcc=True,
          remove_bodies=[f for f in _u if f not in _keep], extra_flags=["--unwind", "10"], covers=1, min_obligations=8,
          stubbed_contracts=["pthread_create / pthread_join (ghost thread ledger)", "bidib_state_init (ok / error)", "bidib_communication_works (yes / no)"],
          note="two sessions from process start; every flush interval, config ok/bad, interface answering or not, debug mode on/off; loop-free: complete"),
